@@ -64,16 +64,24 @@ CASES = [
 ]
 
 
-def _run(ctx, f, default, p, file_path, lua_path, env, present):
+def _run(ctx, f, default, p, file_path, lua_path, env, present, dirs=()):
     cxi = CX.Cx(ctx.model, ctx.consts)
     probes = []
 
     def isfile(c, a, k):
         probes.append(a[0])
         return a[0] in present
+
+    def exists(c, a, k):
+        probes.append(a[0])
+        return a[0] in present or a[0] in dirs
+
+    def isdir(c, a, k):
+        return a[0] in dirs
     cxi.ext_hooks = {
         'os.path.isfile': isfile,
-        'os.path.exists': isfile,
+        'os.path.exists': exists,
+        'os.path.isdir': isdir,
         'os.path.dirname': lambda c, a, k: posixpath.dirname(a[0]),
         'os.path.join': lambda c, a, k: posixpath.join(*a),
         'os.path.isabs': lambda c, a, k: posixpath.isabs(a[0]),
@@ -139,4 +147,58 @@ def report(ctx, res, rule='R-C12-locate'):
                   n, default), '; '.join(bad[:2]) + (
                       ' (+{} more)'.format(len(bad) - 2)
                       if len(bad) > 2 else ''), f.loc, semantic=True)
+    return True
+
+
+
+# a directory is not a package: the lookup must pass over a candidate that
+# names a directory (a package `geom.lua` next to a directory `geom/` for its
+# sub-packages is the ordinary layout of a nested package graph)
+DIR_CASES = [
+    # what, p, file_path, lua_path, env, files, directories
+    ('package next to a directory of the same name, default load path',
+     'geom', '/proj/main.lua', None, {}, {'/proj/geom.lua'}, {'/proj/geom'}),
+    ('empty template in the load path (names the requiring directory)',
+     'util', '/proj/main.lua', 'vendor/?.lua;;lib/?.lua', {},
+     {'/proj/lib/util.lua'}, {'/proj', '/proj/'}),
+    ('only a directory matches', 'pkg', '/proj/main.lua', '?', {}, set(),
+     {'/proj/pkg'}),
+]
+
+
+def report_files_only(ctx, res, rule='R-C14-errors'):
+    """C14: what the lookup returns is opened and parsed as a package, so it
+    must be a file -- evaluated on a stand-in file system that has
+    directories as well"""
+    q = B + ':_locate_require_file'
+    try:
+        f = ctx.model.func(q)
+    except Exception as e:
+        res.vanished(rule, q, 'lookup', str(e)[:80])
+        return False
+    default = ctx.consts.module_const(B, 'DEFAULT_LUA_PATH')
+    if not isinstance(default, str):
+        return False
+    bad = []
+    n = 0
+    try:
+        for (what, p, fp, lp, env, files, dirs) in DIR_CASES:
+            probes, ret = _run(ctx, f, default, p, fp, lp, env, files, dirs)
+            n += 1
+            _w, want = _expected(p, fp, lp, env, default, files)
+            if isinstance(ret, tuple) and ret and ret[0] == 'raise':
+                bad.append('{}: raises {}'.format(what, ret[1]))
+            elif ret != want:
+                bad.append('{}: returns {!r}{} instead of {!r}'.format(
+                    what, ret, ' (a directory)' if ret in dirs else '',
+                    want))
+    except AnalysisError as e:
+        res.info(rule, q, 'lookup evaluated with directories',
+                 'not followed: ' + str(e)[:140], f.loc)
+        return False
+    res.check(not bad, rule, q,
+              'the lookup passes over candidates that are directories: what '
+              'it returns is a file (evaluated)',
+              '{} layouts with a directory among the candidates'.format(n),
+              '; '.join(bad[:2]), f.loc, semantic=True)
     return True
